@@ -219,6 +219,53 @@ func (x *Exec) Run() {
 	}
 	x.emitSmoke(st, "entry")
 	x.runBlock(st, x.Fn.Blocks[0], nil)
+	x.typeFacts()
+}
+
+// typeFacts: ground facts about the dynamic type tags known to this run, for the abstract predicates
+// ExternalDyn (declared outside the repository), NoUnwrap (no Unwrap/Is method), EmptyStructType.
+func (x *Exec) typeFacts() {
+	for _, t := range x.TM.tagList {
+		id := x.TM.Tag(t)
+		repo := false
+		var named *types.Named
+		tt := types.Unalias(t)
+		if p, ok := tt.(*types.Pointer); ok {
+			tt = types.Unalias(p.Elem())
+		}
+		if n, ok := tt.(*types.Named); ok {
+			named = n
+			if n.Obj().Pkg() != nil && strings.HasPrefix(n.Obj().Pkg().Path(), x.P.ModPath) {
+				repo = true
+			}
+		}
+		if x.D.Has("f:spec.ExternalDyn") {
+			if repo {
+				x.D.Axiom(fmt.Sprintf("(not (spec.ExternalDyn %d))", id))
+			}
+		}
+		if x.D.Has("f:spec.NoUnwrap") && named != nil {
+			ms := types.NewMethodSet(t)
+			has := false
+			for i := 0; i < ms.Len(); i++ {
+				if n := ms.At(i).Obj().Name(); n == "Unwrap" || n == "Is" || n == "As" {
+					has = true
+				}
+			}
+			if !has {
+				x.D.Axiom(fmt.Sprintf("(spec.NoUnwrap %d)", id))
+			} else {
+				x.D.Axiom(fmt.Sprintf("(not (spec.NoUnwrap %d))", id))
+			}
+		}
+		if x.D.Has("f:spec.EmptyStructType") {
+			if st, ok := types.Unalias(t).Underlying().(*types.Struct); ok && st.NumFields() == 0 {
+				x.D.Axiom(fmt.Sprintf("(spec.EmptyStructType %d)", id))
+			} else {
+				x.D.Axiom(fmt.Sprintf("(not (spec.EmptyStructType %d))", id))
+			}
+		}
+	}
 }
 
 type unsupportedErr string
@@ -628,8 +675,8 @@ func (x *Exec) heapArr(st *State, name, idxSort, valSort string) string {
 	return c
 }
 
-func (x *Exec) elemArr(st *State, elemSort string) string {
-	return x.heapArr(st, x.TM.ElemArray(elemSort), SInt, fmt.Sprintf("(Array Int %s)", elemSort))
+func (x *Exec) elemArr(st *State, key string) string {
+	return x.heapArr(st, x.TM.ElemArray(key), SInt, fmt.Sprintf("(Array Int %s)", ksort(key)))
 }
 
 // valueIn wraps a term read from memory: pointers to structs etc. stay plain terms.
@@ -742,8 +789,8 @@ func (x *Exec) elemTypeAfterIndex(p *Pointer) types.Type {
 
 func (x *Exec) loadObject(st *State, base string, t types.Type) Value {
 	if isTime(t) || x.TM.IsOpaqueStruct(t) {
-		s := x.TM.Sort(t)
-		return x.mk(Select(x.heapArr(st, x.TM.CellArray(s), SInt, s), base), t)
+		s := x.TM.Key(t)
+		return x.mk(Select(x.heapArr(st, x.TM.CellArray(s), SInt, ksort(s)), base), t)
 	}
 	switch u := types.Unalias(t).Underlying().(type) {
 	case *types.Struct:
@@ -761,19 +808,19 @@ func (x *Exec) loadObject(st *State, base string, t types.Type) Value {
 		if x.exploded(u.Elem()) {
 			x.fail("whole-array load of struct array")
 		}
-		es := x.TM.Sort(u.Elem())
+		es := x.TM.Key(u.Elem())
 		return x.mk(Select(x.elemArr(st, es), base), t)
 	default:
-		s := x.TM.Sort(t)
-		return x.mk(Select(x.heapArr(st, x.TM.CellArray(s), SInt, s), base), t)
+		s := x.TM.Key(t)
+		return x.mk(Select(x.heapArr(st, x.TM.CellArray(s), SInt, ksort(s)), base), t)
 	}
 }
 
 func (x *Exec) storeObject(st *State, base string, t types.Type, v string) {
 	if isTime(t) || x.TM.IsOpaqueStruct(t) {
-		s := x.TM.Sort(t)
+		s := x.TM.Key(t)
 		name := x.TM.CellArray(s)
-		st.Heap[name] = Store(x.heapArr(st, name, SInt, s), base, v)
+		st.Heap[name] = Store(x.heapArr(st, name, SInt, ksort(s)), base, v)
 		return
 	}
 	switch u := types.Unalias(t).Underlying().(type) {
@@ -794,13 +841,13 @@ func (x *Exec) storeObject(st *State, base string, t types.Type, v string) {
 			}
 			return
 		}
-		es := x.TM.Sort(u.Elem())
+		es := x.TM.Key(u.Elem())
 		name := x.TM.ElemArray(es)
 		st.Heap[name] = Store(x.elemArr(st, es), base, v)
 	default:
-		s := x.TM.Sort(t)
+		s := x.TM.Key(t)
 		name := x.TM.CellArray(s)
-		st.Heap[name] = Store(x.heapArr(st, name, SInt, s), base, v)
+		st.Heap[name] = Store(x.heapArr(st, name, SInt, ksort(s)), base, v)
 	}
 }
 
@@ -951,7 +998,7 @@ func (x *Exec) step(st *State, ins ssa.Instruction) {
 		l := x.val(st, ins.Len)
 		c := x.val(st, ins.Cap)
 		et := ins.Type().Underlying().(*types.Slice).Elem()
-		es := x.TM.Sort(et)
+		es := x.TM.Key(et)
 		x.emit(st, "makeslice", x.labelFor(ins, "makeslice", "len"), fmt.Sprintf("(and (>= %s 0) (<= %s %s))", l.Term, l.Term, c.Term), "")
 		r := x.alloc(st)
 		if x.exploded(et) {
@@ -959,7 +1006,7 @@ func (x *Exec) step(st *State, ins ssa.Instruction) {
 		} else {
 			name := x.TM.ElemArray(es)
 			arr := x.elemArr(st, es)
-			st.Heap[name] = Store(arr, r, fmt.Sprintf("((as const (Array Int %s)) %s)", es, x.TM.Zero(et)))
+			st.Heap[name] = Store(arr, r, fmt.Sprintf("((as const (Array Int %s)) %s)", ksort(es), x.TM.Zero(et)))
 		}
 		fr.Regs[ins] = x.mk(fmt.Sprintf("(mk_slice %s %s %s)", r, l.Term, c.Term), ins.Type())
 	case *ssa.MakeMap:
@@ -1194,7 +1241,7 @@ func (x *Exec) indexAddr(st *State, ins *ssa.IndexAddr) Value {
 	i := x.val(st, ins.Index)
 	switch u := types.Unalias(ins.X.Type()).Underlying().(type) {
 	case *types.Slice:
-		es := x.TM.Sort(u.Elem())
+		es := x.TM.Key(u.Elem())
 		x.emit(st, "bounds", x.labelFor(ins, "bounds", describe(ins.X)), fmt.Sprintf("(and (>= %s 0) (< %s (slen %s)))", i.Term, i.Term, b.Term), "")
 		st.Assume(fmt.Sprintf("(and (>= %s 0) (< %s (slen %s)))", i.Term, i.Term, b.Term))
 		idx := i.Term
@@ -1205,7 +1252,7 @@ func (x *Exec) indexAddr(st *State, ins *ssa.IndexAddr) Value {
 		return Value{Typ: ins.Type(), Sort: SInt, Ptr: &Pointer{Base: app("sbase", b.Term), Steps: []Step{{IsIndex: true, Index: idx, Struct: u.Elem()}}, Elem: u.Elem(), ElemBaseSort: es}}
 	case *types.Pointer:
 		arr := types.Unalias(u.Elem()).Underlying().(*types.Array)
-		es := x.TM.Sort(arr.Elem())
+		es := x.TM.Key(arr.Elem())
 		x.emit(st, "bounds", x.labelFor(ins, "bounds", describe(ins.X)), fmt.Sprintf("(and (>= %s 0) (< %s %d))", i.Term, i.Term, arr.Len()), "")
 		if b.Ptr != nil && (b.Ptr.Cell != nil || len(b.Ptr.Steps) > 0) {
 			np := &Pointer{Cell: b.Ptr.Cell, Frame: b.Ptr.Frame, Base: b.Ptr.Base, Steps: append(append([]Step(nil), b.Ptr.Steps...), Step{IsIndex: true, Index: i.Term, Struct: arr.Elem()}), Elem: arr.Elem(), ElemBaseSort: b.Ptr.ElemBaseSort}
@@ -1347,6 +1394,8 @@ func (x *Exec) typeAssert(st *State, ins *ssa.TypeAssert) Value {
 		sort := x.TM.Sort(to)
 		ok = Eq(app("itag", v.Term), fmt.Sprintf("%d", tag))
 		val = x.TM.Unbox(sort, app("ival", v.Term))
+		// a value whose dynamic type is T is the boxing of its unboxing
+		st.Assume(Implies(ok, Eq(x.TM.Box(sort, val), app("ival", v.Term))))
 		if ins.CommaOk {
 			val = Ite(ok, val, x.TM.Zero(to))
 		}
@@ -1398,7 +1447,7 @@ func (x *Exec) convert(st *State, v Value, from, to types.Type) Value {
 	// []byte <-> string
 	if _, ok := fu.(*types.Slice); ok && ts == SStr {
 		f := x.D.Fun("bytes.tostr", []string{"(Array Int Int)", SInt}, SStr)
-		inner := Select(x.elemArr(st, SInt), app("sbase", v.Term))
+		inner := Select(x.elemArr(st, x.TM.Key(types.Typ[types.Uint8])), app("sbase", v.Term))
 		t := app(f, inner, app("slen", v.Term))
 		st.Assume(fmt.Sprintf("(= (strlen %s) (slen %s))", t, v.Term))
 		x.strFacts(st, t)
@@ -1410,8 +1459,9 @@ func (x *Exec) convert(st *State, v Value, from, to types.Type) Value {
 			sl := fmt.Sprintf("(mk_slice %s (strlen %s) (strlen %s))", r, v.Term, v.Term)
 			f := x.D.Fun("bytes.tostr", []string{"(Array Int Int)", SInt}, SStr)
 			g := x.D.Fun("str.tobytes", []string{SStr}, "(Array Int Int)")
-			name := x.TM.ElemArray(SInt)
-			st.Heap[name] = Store(x.elemArr(st, SInt), r, app(g, v.Term))
+			bk := x.TM.Key(types.Typ[types.Uint8])
+			name := x.TM.ElemArray(bk)
+			st.Heap[name] = Store(x.elemArr(st, bk), r, app(g, v.Term))
 			x.D.Axiom(fmt.Sprintf("(= %s %s)", app(f, app(g, v.Term), app("strlen", v.Term)), v.Term))
 			return x.mk(sl, to)
 		}
@@ -1585,11 +1635,11 @@ func (x *Exec) assumeBackground(st *State) {
 // subSliceCopy models s[lo:hi] with lo != 0 as a fresh view holding a copy of the elements
 // (aliasing with the original backing array is not modelled; listed as a modelling assumption).
 func (x *Exec) subSliceCopy(st *State, base, lo, hi, capT string, et types.Type, rt types.Type) Value {
-	es := x.TM.Sort(et)
+	es := x.TM.Key(et)
 	name := x.TM.ElemArray(es)
 	arr := x.elemArr(st, es)
 	r := x.alloc(st)
-	inner := x.D.Fresh("sub", fmt.Sprintf("(Array Int %s)", es))
+	inner := x.D.Fresh("sub", fmt.Sprintf("(Array Int %s)", ksort(es)))
 	st.Assume(fmt.Sprintf("(forall ((i!q Int)) (! (= (select %s i!q) (select (select %s %s) (+ %s i!q))) :pattern ((select %s i!q))))", inner, arr, base, lo, inner))
 	st.Heap[name] = Store(arr, r, inner)
 	x.Assumptions["sub-slice with non-zero low bound modelled as a copy"] = true
